@@ -1,37 +1,103 @@
 #!/usr/bin/env python3
-"""Apply every seeded change to /repo in turn, run the quick check of its property (and optionally others),
-record the outcome in seeded/<id>/meta.json (`caught_by`), undo the change.  /repo must be clean."""
-import json, os, subprocess, sys, glob
+"""Run every seeded change against the quick checks and record the outcome.
+
+For each seeded/<id>/patch.diff: a scratch worktree of /repo's HEAD is created under /tmp, the patch applied THERE
+(never to /repo), the quick check of its property (plus the cross-checks listed in EXTRA) is run with
+PYTHONPATH=<worktree>/src so that `import aspire` resolves to the changed tree, the outcome is written into
+seeded/<id>/meta.json (`caught_by`) and the worktree removed.  Several changes run in parallel (-j N).
+`--md` rewrites seeded/MATRIX.md from the meta files.
+
+usage: seeded_matrix.py [-j N] [--md] [ids...]   |   seeded_matrix.py --md-only
+"""
+import glob
+import json
+import os
+import subprocess
+import sys
+import tempfile
+from concurrent.futures import ThreadPoolExecutor
+
 os.chdir('/verif')
-assert not subprocess.run("git -C /repo status --porcelain", shell=True, capture_output=True, text=True).stdout.strip(), "/repo not clean"
-extra = {"C08-m1": ["C11", "C18"], "C11-m2": ["C08", "C18"], "C18-m2": ["C11", "C08"], "C01-m2": ["C05"], "C03-m1": ["C04"], "C03-m2": ["C13"], "C10-m1": ["C17"]}
-rows = []
-only = sys.argv[1:]
-for d in sorted(glob.glob('seeded/*/')):
-    sid = os.path.basename(d.rstrip('/'))
-    if only and sid not in only:
-        continue
+EXTRA = {"C08-m1": ["C11", "C18"], "C11-m2": ["C08", "C18"], "C18-m2": ["C11", "C08"], "C01-m2": ["C05"], "C03-m1": ["C04"],
+         "C03-m2": ["C13"], "C10-m1": ["C17"]}
+
+
+def sh(cmd, **kw):
+    return subprocess.run(cmd, shell=True, capture_output=True, text=True, **kw)
+
+
+HEAD = sh("git -C /repo rev-parse --short HEAD").stdout.strip()
+
+
+def one(sid):
+    d = f"seeded/{sid}/"
     meta = json.load(open(d + 'meta.json'))
     prop = meta['property']
-    r = subprocess.run(f"git -C /repo apply {os.path.abspath(d)}/patch.diff", shell=True, capture_output=True, text=True)
-    if r.returncode != 0:
-        rows.append((sid, 'PATCH-FAILED', r.stderr[-200:])); continue
-    caught = {}
+    wt = tempfile.mkdtemp(prefix=f"seedmx_{sid}_", dir="/tmp")
+    os.rmdir(wt)
     try:
-        for c in [prop] + extra.get(sid, []):
-            p = subprocess.run(f"./check {c} --no-proof", shell=True, capture_output=True, text=True, timeout=1800)
+        r = sh(f"git -C /repo worktree add -q --detach {wt} HEAD && git -C {wt} apply {os.path.abspath(d)}/patch.diff")
+        if r.returncode != 0:
+            return sid, 'PATCH-FAILED', r.stderr[-200:]
+        caught = {}
+        env = dict(os.environ, PYTHONPATH=f"{wt}/src", VERIF_SCRATCH_OUT=f"{wt}/.out")
+        for c in [prop] + meta.get("cross_checks", EXTRA.get(sid, [])):
+            p = sh(f"./check {c} --no-proof", env=env, timeout=3600)
             out = p.stdout
             vio = [l for l in out.splitlines() if l.startswith("VIOLATION")]
             kind = None
             if vio:
-                kind = "no-failing-input-found" if vio[0].endswith("no-failing-input-found") else ("oracle (failing input replayable)")
+                kind = "no-failing-input-found" if vio[0].endswith("no-failing-input-found") else "oracle (failing input replayable)"
             summ = [l for l in out.splitlines() if "oracle failures by clause" in l or "disagreements by op" in l]
             caught[c] = {"exit": p.returncode, "violation": bool(vio), "kind": kind, "summary": summ}
+            if p.returncode == 2:
+                caught[c]["stderr_tail"] = p.stderr[-400:]
+        meta['caught_by'] = caught
+        meta['checked_against_repo_head'] = HEAD
+        json.dump(meta, open(d + 'meta.json', 'w'), indent=1)
+        return sid, {c: (v['exit'], v['kind']) for c, v in caught.items()}
     finally:
-        subprocess.run("git -C /repo checkout -- .", shell=True)
-    meta['caught_by'] = caught
-    meta['checked_against_repo_head'] = subprocess.run("git -C /repo rev-parse --short HEAD", shell=True, capture_output=True, text=True).stdout.strip()
-    json.dump(meta, open(d + 'meta.json', 'w'), indent=1)
-    rows.append((sid, {c: (v['violation'], v['kind']) for c, v in caught.items()}))
-    print(rows[-1], flush=True)
-json.dump(rows, open('/tmp/seeded_matrix.json', 'w'), indent=1, default=str)
+        sh(f"git -C /repo worktree remove --force {wt}; rm -rf {wt}; git -C /repo worktree prune")
+
+
+def write_md():
+    rows, own, total = [], 0, 0
+    for m in sorted(glob.glob('seeded/C*/meta.json')):
+        sid = m.split('/')[1]
+        meta = json.load(open(m))
+        cb = meta.get('caught_by', {})
+        prop = meta['property']
+        mine = cb.get(prop, {})
+        others = [c for c, v in cb.items() if c != prop and v.get('violation')]
+        total += 1
+        own += bool(mine.get('violation'))
+        summ = "; ".join(s.strip() for s in mine.get('summary', []))[:260]
+        rows.append(f"| {sid} | {prop} | {meta.get('needs_to_manifest', '').replace('|', '/')} | "
+                    f"{'yes (' + str(mine.get('kind')) + ')' if mine.get('violation') else 'NO'} | {', '.join(others) or '-'} | {summ} |")
+    txt = ["# Seeded changes vs checks (quick tier, `--no-proof`; produced by tools/seeded_matrix.py)", "",
+           "Each change was applied to a scratch worktree of /repo's HEAD, the check run against that tree "
+           "(`PYTHONPATH=<worktree>/src ./check Cxx --no-proof`), and the worktree removed; /repo itself is never modified.", "",
+           "| change | property | needs, in order to manifest | caught by its own check | also caught by | failing clauses / disagreeing ops |",
+           "|---|---|---|---|---|---|"] + rows + ["", f"{own} of {total} are caught by the check of the property they break."]
+    open('seeded/MATRIX.md', 'w').write("\n".join(txt) + "\n")
+    print(f"MATRIX.md: {own}/{total} caught by own check")
+
+
+if __name__ == "__main__":
+    args = sys.argv[1:]
+    if "--md-only" in args:
+        write_md(); sys.exit(0)
+    jobs = 4
+    if "-j" in args:
+        i = args.index("-j"); jobs = int(args[i + 1]); del args[i:i + 2]
+    md = "--md" in args
+    args = [a for a in args if a != "--md"]
+    ids = [os.path.basename(d.rstrip('/')) for d in sorted(glob.glob('seeded/C*/'))]
+    if args:
+        ids = [i for i in ids if i in args]
+    if ids:
+        with ThreadPoolExecutor(jobs) as ex:
+            for res in ex.map(one, ids):
+                print(res, flush=True)
+    if md:
+        write_md()
